@@ -79,6 +79,11 @@ class Prov:
                     and nd.func.attr in ("append", "add", "extend", "update", "insert", "setdefault", "appendleft"):
                 for a in nd.args:
                     self._content.setdefault(nd.func.value.id, []).append((nd.func.attr, a))
+            elif isinstance(nd, ast.Call) and isinstance(nd.func, ast.Attribute) and isinstance(nd.func.value, ast.Subscript) \
+                    and isinstance(nd.func.value.value, ast.Name) and nd.func.attr in ("append", "add", "extend", "update", "insert", "appendleft"):
+                # d[k].append(v): content of a group inside a local dict (regrouping); marked with '[]'
+                for a in nd.args:
+                    self._content.setdefault(nd.func.value.value.id, []).append((nd.func.attr + "[]", a))
             elif isinstance(nd, ast.Assign):
                 for t in nd.targets:
                     if isinstance(t, ast.Subscript) and isinstance(t.value, ast.Name):
